@@ -211,6 +211,27 @@ func incrementOf(fn *core.Fn, e ast.Expr) (offPoint, bool) {
 		case n == "vlen":
 			return offPoint{0, 0, 1}, true
 		}
+		// a local defined once by `name := expr` in this function
+		if obj := fn.Pkg.TypesInfo.Uses[x]; obj != nil {
+			var rhs ast.Expr
+			defs := 0
+			ast.Inspect(fn.Decl.Body, func(nd ast.Node) bool {
+				as, ok := nd.(*ast.AssignStmt)
+				if !ok {
+					return true
+				}
+				for i, l := range as.Lhs {
+					if id, ok := l.(*ast.Ident); ok && (fn.Pkg.TypesInfo.Defs[id] == obj || fn.Pkg.TypesInfo.Uses[id] == obj) && i < len(as.Rhs) {
+						defs++
+						rhs = as.Rhs[i]
+					}
+				}
+				return true
+			})
+			if defs == 1 && rhs != nil {
+				return incrementOf(fn, rhs)
+			}
+		}
 	}
 	return offPoint{}, false
 }
@@ -234,6 +255,8 @@ func c17Layout(r *core.Run) {
 		tablePkg + ".(*Table).GetTTL", tablePkg + ".(*Table).GetLastAccess", tablePkg + ".(*Table).Delete", tablePkg + ".(*Table).UpdateTTL",
 		"internal/kvstore/entry.(*Entry).Encode", "internal/kvstore/entry.(*Entry).Decode",
 	}
+	evaluated := 0
+	defer func() { r.Floor("layout-agreement(functions judged)", evaluated, 4) }()
 	for _, name := range fns {
 		fn := r.Need("layout-agreement", name)
 		if fn == nil {
@@ -245,6 +268,7 @@ func c17Layout(r *core.Run) {
 		steps := 0
 		accessOK := true
 		accessWhy := ""
+		opaque := false // an advance that the rule cannot evaluate: the function is not judged
 		var cursorOrder []string
 		isCursor := func(e ast.Expr) (string, bool) {
 			s := exprText(e)
@@ -289,8 +313,8 @@ func c17Layout(r *core.Run) {
 					if x.Tok == token.ADD_ASSIGN && len(x.Lhs) == 1 {
 						inc, ok := incrementOf(fn, x.Rhs[0])
 						if !ok {
-							if _, isCur := isCursor(x.Lhs[0]); isCur && bad == "" {
-								bad = "unrecognised increment at " + p.Pos(x.Pos())
+							if _, isCur := isCursor(x.Lhs[0]); isCur {
+								opaque = true
 							}
 							return true
 						}
@@ -344,7 +368,31 @@ func c17Layout(r *core.Run) {
 			})
 		}
 		walk(fn.Decl.Body)
-		r.Check(bad == "" && steps >= 2, "layout-agreement", name+" offsets", p.Pos(fn.Decl.Pos()),
+		switch {
+		case opaque && bad == "":
+			r.Except("layout-agreement", name+" offsets", p.Pos(fn.Decl.Pos()), "the offsets are not advanced in the step-wise constant form this rule evaluates; not judged (no alarm is raised without positive evidence of a disagreement)")
+			continue
+		case steps == 0:
+			// delegates to a sibling that is judged itself?
+			del := ""
+			core.WalkCalls(fn.Decl.Body, func(call *ast.CallExpr, _ *ast.FuncLit) {
+				if o := core.Callee(fn.Pkg, call); o != nil {
+					for _, sib := range fns {
+						if core.QualName(o) == sib && sib != name {
+							del = sib
+						}
+					}
+				}
+			})
+			if del != "" {
+				r.Except("layout-agreement", name+" offsets", p.Pos(fn.Decl.Pos()), "delegates the layout walk to "+del+", which is judged itself")
+			} else {
+				r.Except("layout-agreement", name+" offsets", p.Pos(fn.Decl.Pos()), "no step-wise cursor advance found; not judged")
+			}
+			continue
+		}
+		evaluated++
+		r.Check(bad == "", "layout-agreement", name+" offsets", p.Pos(fn.Decl.Pos()),
 			fmt.Sprintf("%d cursor advances, all on field boundaries of 1|K|8|8|8|4|V", steps),
 			"the function walks the entry layout differently from its siblings ("+bad+"): entries written by one are misread by the other (corrupt keys, values, expiry or neighbours)")
 		r.Check(accessOK, "layout-agreement", name+" field widths", p.Pos(fn.Decl.Pos()),
